@@ -50,6 +50,10 @@ fn install_budget(len: usize) {
                     std::panic::panic_any(Budget);
                 }
             }
+            // every hook event is a scheduling point too (a plain one: `sleep(0)`, not
+            // `yield_now`, which PCT treats as a priority hint), so that a call can be
+            // preempted half-way through a helper as well as at its sync operations
+            shuttle::thread::sleep(std::time::Duration::ZERO);
         })));
     }
     let _ = len;
